@@ -90,7 +90,10 @@ def guard_rules(repo, res, rule="GUARD"):
             key_ok = p[0] == "mcall" and p[1] == "get" and p[3] and p[3][0][0] == "field" and p[3][0][2] == "lhs_name"
             # plain definitions only: `if defn.shell.is_some() { continue }` precedes
             pg = A.preceding_guards(s, pm)
-            shell_skip = any(k == "if" and "shell.is_some()" in cond_text(repo, fn, c).replace(" ", "") for k, c, st in pg)
+            # however it is spelled (`if d.shell.is_some() { continue }`, `.filter(|d| d.shell.is_none())`, ...): at this site the
+            # definition is known to be a plain one
+            from vlib import preds
+            shell_skip = any(k.endswith(".shell.is_none()") for k in preds.known(repo, fn, s, envs, pm))
             a0 = A.resolve(s["args"][0], envs.get(id(s)))
             a1 = A.resolve(s["args"][1], envs.get(id(s)))
             order_ok = a0[0] == "field" and a0[2] == "lhs_span" and a0[1][0] == "bind" and a1[0] == "field" and a1[2] == "lhs_span" and a1[1][0] == "elem"
